@@ -38,6 +38,7 @@ type histOp struct {
 	Kind    string   `json:"kind"`
 	Val     string   `json:"val"` // hex of little-endian element bytes
 	Raw     bool     `json:"raw"`
+	H       *int     `json:"h"` // which handle of Path to use: index into the handles opened so far (nil = the latest)
 }
 
 type histCase struct {
@@ -183,9 +184,32 @@ type histRun struct {
 	file    string
 	fw      *hdf5.FileWriter
 	ds      map[string]*hdf5.DatasetWriter
+	dsAll   map[string][]*hdf5.DatasetWriter // every handle obtained for a path in this session (opends adds one)
 	grp     map[string]*hdf5.GroupWriter
 	dtypeOf map[string]string
 	strsize map[string]uint32
+}
+
+// handle selects the handle an operation asked for with "h" (an earlier OpenDataset/CreateDataset result
+// of the same path in this session), or the latest one.
+func (h *histRun) handle(op *histOp) (*hdf5.DatasetWriter, error) {
+	if op.H != nil {
+		if all := h.dsAll[op.Path]; len(all) > 0 {
+			i := *op.H % len(all)
+			if i < 0 {
+				i += len(all)
+			}
+			return all[i], nil
+		}
+	}
+	return h.dataset(op.Path)
+}
+
+func (h *histRun) remember(path string, d *hdf5.DatasetWriter) {
+	if h.dsAll == nil {
+		h.dsAll = map[string][]*hdf5.DatasetWriter{}
+	}
+	h.dsAll[path] = append(h.dsAll[path], d)
 }
 
 func (h *histRun) dataset(path string) (*hdf5.DatasetWriter, error) {
@@ -200,6 +224,7 @@ func (h *histRun) dataset(path string) (*hdf5.DatasetWriter, error) {
 		return nil, err
 	}
 	h.ds[path] = d
+	h.remember(path, d)
 	return d, nil
 }
 
@@ -250,12 +275,24 @@ func (h *histRun) apply(op *histOp) (err error) {
 		d, e := h.fw.CreateDataset(op.Path, dt, op.Dims, opts...)
 		if e == nil && d != nil {
 			h.ds[op.Path] = d
+			h.remember(op.Path, d)
 			h.dtypeOf[op.Path] = op.Dtype
 			h.strsize[op.Path] = op.StrSize
 		}
 		return e
+	case "opends": // a further OpenDataset of the same path: becomes the latest handle, earlier ones stay usable ("h")
+		if h.fw == nil {
+			return fmt.Errorf("harness: no open writer")
+		}
+		d, e := h.fw.OpenDataset(op.Path)
+		if e != nil {
+			return e
+		}
+		h.ds[op.Path] = d
+		h.remember(op.Path, d)
+		return nil
 	case "write":
-		d, e := h.dataset(op.Path)
+		d, e := h.handle(op)
 		if e != nil {
 			return e
 		}
@@ -276,7 +313,7 @@ func (h *histRun) apply(op *histOp) (err error) {
 		}
 		return d.Write(v)
 	case "resize":
-		d, e := h.dataset(op.Path)
+		d, e := h.handle(op)
 		if e != nil {
 			return e
 		}
@@ -303,7 +340,7 @@ func (h *histRun) apply(op *histOp) (err error) {
 			}
 			return g.WriteAttribute(string(nameb), v)
 		}
-		d, e := h.dataset(op.Path)
+		d, e := h.handle(op)
 		if e != nil {
 			return e
 		}
@@ -341,6 +378,7 @@ func (h *histRun) apply(op *histOp) (err error) {
 			_ = h.fw.Close()
 		}
 		h.ds = map[string]*hdf5.DatasetWriter{}
+		h.dsAll = map[string][]*hdf5.DatasetWriter{}
 		h.grp = map[string]*hdf5.GroupWriter{}
 		fw, e := hdf5.OpenForWrite(h.file, hdf5.OpenReadWrite)
 		if e != nil {
